@@ -8,7 +8,8 @@ CFG = {'lean_modules': ['ObiVerif.Props.C20', 'ObiVerif.Props.C20BV', 'ObiVerif.
          '95,126,129,190,193,254, alternating patterns and all-ones in a single limb) and on every PAIR of such values for the binary methods; every shift '
          'amount 0..width+64 on three fixed values per width and the amounts 0,1,31,63,64,65,127,128,129,191,192,193,255,256,257,300,319,320,2^32,2^63,2^64-1 '
          'on every boundary value; LeftShift64/RightShift64 with those amounts x six carry-in words; Add64/Sub64 with carry-in 0 and 1. Then random cases '
-         '(12000 quick / 400000 per seed thorough) with limbs drawn from boundary values, small values and random words, near-equal operand pairs one time '
+         '(12000 quick / 400000 per seed thorough; in thorough one random Uint256.Div in two is replaced by a Mul and the Uint256 division frontier runs one round in eight: the Lean '
+         'transcription of that quadratic loop costs ~8 ms per case in the single model process) with limbs drawn from boundary values, small values and random words, near-equal operand pairs one time '
          'in six. Every case also captures the logrus warnings logged by the call (hook at Warn level): the count is part of the result line (` warn=<k>`) and is compared with the model for every method; statistics warn:<width>.<op>. A case is non-trivial when it is distinct and is a well-formed operation (not bad-op)',
  'trusted_base': LEAN_TB + ['math/bits Add64/Sub64/Mul64/Div64/LeadingZeros64 modelled by their documented arithmetic meaning (carry/borrow input 0 or 1)',
  'the go/ast -> Lean translator /verif/extract/fpgen.go (its reading of Go: uint64 +,-,* wrap, shifts, let-rebinding, if/switch chains, log.Panicf = error, log.Warnf = counted)',
